@@ -41,7 +41,7 @@ CLAIMED.update({
         "technique": TECH_K,
     },
     "C08": {
-        "text": "THIN SLICE. The sweep decisions of SidecarStore::collect_garbage — two statement slices copied verbatim each run from inside its async listing loops: a generation object is a deletion candidate only if it is older than the run's floor (not an in-flight write), the key's commit point in the mark snapshot does not reference exactly that generation, and the commit point was decodable; a legacy object only if the commit point is neither in the legacy layout nor undecodable. Complete over all u64 timestamps on every snapshot state. 'Garbage collection never removes a payload that a committed key refers to' is decided only with respect to the snapshot the decision is handed; crash atomicity of the wrapper writes, the mark phase, the in-flight / re-read guards and GC-vs-writer schedules are not decidable by contracts here.",
+        "text": "THIN SLICE. The sweep decisions of SidecarStore::collect_garbage — two statement slices copied verbatim each run from inside its async listing loops: a generation object is a deletion candidate only if it is older than the run's floor (not an in-flight write), the key's commit point in the mark snapshot does not reference exactly that generation, and the commit point was decodable; a legacy object only if the commit point is neither in the legacy layout nor undecodable. Complete over all u64 timestamps on every snapshot state. Plus the in-flight registration of copy_payload and both put_multipart_opts (verbatim slices): the (location, generation) pair registered with the collector is the pair the written payload path is built from (bounded: concrete locations). 'Garbage collection never removes a payload that a committed key refers to' is decided only with respect to the snapshot the decision is handed; crash atomicity of the wrapper writes, the mark phase, the in-flight / re-read guards and GC-vs-writer schedules are not decidable by contracts here.",
         "note": "Scope: the two sweep decisions of collect_garbage only.",
         "technique": TECH_K,
     },
